@@ -267,8 +267,11 @@ void RunScenario(ck::Node& n, const Layout& L, const Scen& s, fp::Out& o)
             // height_first - 10 - 1 < 1 does not protect heights <= 1 (FlushStateToDisk clamps the limit up to 1).
             bool floor_case = b->height <= 1 && b->height <= tip - KEEP && !(s.snap >= 0) && !(s.mode != 0 && b->height > manual);
             if (floor_case) {
+                for (const BlockRec* x : by_file[f]) if (x->height > 1) floor_case = false; // exactly: a file whose highest block is <= 1
+            }
+            if (floor_case) {
                 bool low_lock = false;
-                for (int l : ref_locks) if (l != INT_MAX && b->height >= l && l - LOCK_BUFFER - 1 < 1) low_lock = true;
+                for (int l : ref_locks) if (l != INT_MAX && b->height >= l && l <= 1) low_lock = true;
                 floor_case = low_lock;
             }
             if (floor_case) o.violation("C19-prune-lock-floor", "file " + std::to_string(f) + " was removed but " + why + " [" + tag + "]", "scenario: " + tag);
